@@ -107,8 +107,8 @@ theorem struct_findOrCreateTableAdd : type_of% @Ark.SInv.findOrCreateTableAdd_sp
 theorem struct_add_rejects_present : type_of% @Ark.Props.C01Struct.findOrCreateTableAdd_rejects := @Ark.Props.C01Struct.findOrCreateTableAdd_rejects
 
 
-/-! ## refinement to the specification map (Props/C01Refine): every history of register / new / add /
-    remove / set / remove-entity operations on non-relation components, from the initial world, is
+/-! ## refinement to the specification map (Props/C01Refine): every history of register / new / new0 / add /
+    remove / exchange / set / copy / remove-entity / shrink / reset operations on non-relation components, through any access path, from the initial world, is
     simulated by the obvious map `handle ↦ component ↦ value`; rejected calls change nothing -/
 
 theorem refine_reach_cinv : type_of% @Ark.Props.C01Refine.reach_cinv := @Ark.Props.C01Refine.reach_cinv
@@ -140,6 +140,27 @@ theorem refine_last_write_wins_set : type_of% @Ark.Props.C01Refine.last_write_wi
 theorem refine_last_write_wins_add : type_of% @Ark.Props.C01Refine.last_write_wins_add := @Ark.Props.C01Refine.last_write_wins_add
 
 theorem refine_lastVal_spec : type_of% @Ark.Props.C01Refine.lastVal_spec := @Ark.Props.C01Refine.lastVal_spec
+
+/-- after a valid exchange every kept component reads its last written value, every added one the last value given (zero if none), removed ones are gone -/
+theorem refine_last_write_wins_xchg : type_of% @Ark.Props.C01Refine.last_write_wins_xchg := @Ark.Props.C01Refine.last_write_wins_xchg
+
+/-- `CopyEntity` yields a fresh handle with the same components and values; the source is unchanged -/
+theorem refine_copy_effect : type_of% @Ark.Props.C01Refine.copy_effect := @Ark.Props.C01Refine.copy_effect
+
+/-- `NewEntity()` without components yields a fresh alive handle with the empty component set -/
+theorem refine_new0_effect : type_of% @Ark.Props.C01Refine.new0_effect := @Ark.Props.C01Refine.new0_effect
+
+/-- `Shrink` (bounded or not) as a step of the machine: the specification is unchanged and still refined -/
+theorem refine_shrink_invisible : type_of% @Ark.Props.C01Refine.shrink_invisible := @Ark.Props.C01Refine.shrink_invisible
+
+/-- no handle issued in a history carries a generation above the history's length (in particular never `MaxUint32`) -/
+theorem refine_issued_gen_bound : type_of% @Ark.Props.C01Refine.issued_gen_bound := @Ark.Props.C01Refine.issued_gen_bound
+
+/-- `Reset` as a step: the specification is empty, no handle of the previous epoch is alive, the registry is kept -/
+theorem refine_reset_effect : type_of% @Ark.Props.C01Refine.reset_effect := @Ark.Props.C01Refine.reset_effect
+
+/-- a history gives the same state whichever access path (Unsafe / Map / typed tuple) each operation uses -/
+theorem refine_any_access_path : type_of% @Ark.Props.C01Refine.any_access_path := @Ark.Props.C01Refine.any_access_path
 
 
 end Ark.Props.C01
